@@ -75,6 +75,8 @@ def _case(draw, unit):
         'C': draw(st.sampled_from([1, 1, 2, 3, 5, 17])) if not large else draw(st.sampled_from([1, 2])),
         'dtype': draw(st.sampled_from(['f64', 'f64', 'f64', 'f64', 'f32'])),
         'wave_form': draw(st.sampled_from(['name', 'name', 'name', 'object', 'tuple', 'tuple'])),
+        # tuple forms: 1-D arrays, plain lists, or (L,1) column arrays (what the low-level code itself produces)
+        'tuple_container': draw(st.sampled_from(['array1d', 'array1d', 'list', 'column'])),
         # 'per' is the accepted short spelling of 'periodization'
         'mode_spelling': 'per' if (mode == 'periodization' and draw(st.integers(0, 2)) == 0) else mode,
         # for the tuple form: a rescaled (still perfect-reconstruction) filter bank, analysis (lo*a, hi*b),
@@ -124,7 +126,13 @@ def wave_arg(case, kind='dec'):
     w = ref_wavelet(case)
     if form == 'object':
         return w
-    return (np.array(w.dec_lo), np.array(w.dec_hi)) if kind == 'dec' else (np.array(w.rec_lo), np.array(w.rec_hi))
+    pair = (w.dec_lo, w.dec_hi) if kind == 'dec' else (w.rec_lo, w.rec_hi)
+    cont = case.get('tuple_container', 'array1d')
+    if cont == 'list':
+        return tuple(list(a) for a in pair)
+    if cont == 'column':
+        return tuple(np.array(a).reshape(-1, 1) for a in pair)
+    return tuple(np.array(a) for a in pair)
 
 
 def scribble(wa):
